@@ -190,6 +190,13 @@ fn main() {
                 writeln!(out, "{rec}").unwrap();
             }
         }
+        "replay-reporters" => replay_loop(&args[1..], |objs, l| {
+            writers::replay_reporters(
+                objs,
+                l["stream"].as_array().unwrap(),
+                &l["opts"],
+            )
+        }),
         "replay-comb" => replay_loop(&args[1..], |objs, l| {
             writers::replay_comb(objs, l["inp"].as_array().unwrap())
         }),
